@@ -1142,7 +1142,8 @@ def run(chk: Check):
     allv = [1] if quick else [1, 2, 3]
     # exhaustive model, in the background while rows are replayed
     mcs = [("all flag words", _mc_cfg("all", [0], [9], allv, False)),
-           ("kinds x junk flag bits x variants", _mc_cfg(sel, [0, 2048, 63488], known + unknown, [1, 2, 3, 4, 5, 6], False))]
+           ("kinds x junk flag bits x variants", _mc_cfg(sel, [0, 2048, 63488], known + unknown, [1, 2, 3, 4], False)),
+           ("all-zero / all-FF blocks", _mc_cfg(sel, [0], [9, 47], [5, 6], False))]
     if not quick:
         mcs.append(("variant product", _mc_cfg([2047, 1365], [0], [9], [1, 2, 3], True)))
     _SEEN.clear()
@@ -1155,8 +1156,9 @@ def run(chk: Check):
             for pc in kinds:
                 _replay_rows(chk, _export(chk, ("all", [0], [pc], allv, False), "all flag words pcode %d" % pc),
                              "all flag words")
-        _replay_rows(chk, _export(chk, (sel, [0, 2048, 63488], known + unknown, [1, 2, 3, 4, 5, 6], False),
+        _replay_rows(chk, _export(chk, (sel, [0, 2048, 63488], known + unknown, [1, 2, 3, 4], False),
                                   "kinds x junk flag bits x variants"), "kinds x junk flag bits x variants")
+        _replay_rows(chk, _export(chk, (sel, [0], [9, 47], [5, 6], False), "all-zero / all-FF blocks"), "all-zero / all-FF blocks")
         if not quick:
             _replay_rows(chk, _export(chk, ([2047, 1365, 682], [0], [47], [1, 3], True), "variant product"), "variant product")
         _traces(chk, 1 if quick else 4, 1500 if quick else 12000, 120 if quick else 1200, 1 if quick else 6)
